@@ -665,6 +665,26 @@ def shared_state(ctx):
                         mt_ = memo_tables(ctx, host_, summarise(ctx, host_, policy=default_policy)).get(name)
                     except Exception:
                         mt_ = None
+                    if mt_ is None and host_.cls is None:
+                        # the table is filled by a decorator of the package: judged on every function it decorates, as their callers see them
+                        verdicts_ = []
+                        for g_ in list(M.all_funcs()):
+                            if g_.parent is None and any(isinstance((d_.func if isinstance(d_, ast.Call) else d_), ast.Name) and (d_.func if isinstance(d_, ast.Call) else d_).id == host_.name
+                                                         for d_ in g_.node.decorator_list):
+                                try:
+                                    v_ = memo_tables(ctx, g_, summarise(ctx, g_, policy=default_policy)).get(name)
+                                except Exception:
+                                    v_ = None
+                                verdicts_.append((g_, v_))
+                        bad_ = [(g_, v_) for g_, v_ in verdicts_ if v_ is not None and v_[0] == 'unsound']
+                        if bad_:
+                            g_, v_ = bad_[0]
+                            ctx.violation('C18.shared', 'the process-wide memo %s.%s answers what a fresh computation would (%s)' % (mod, name, g_.qn), g_.site(),
+                                          'READ: as decorated by %s, %s files its answers under %s, which leaves out %s: another object that differs only there is handed the entry '
+                                          'computed for the first' % (host_.name, g_.qn, fmt(v_[1])[:80], ', '.join(v_[2])), key='C18.shared|memo-key|%s.%s' % (mod, name))
+                            continue
+                        if verdicts_ and all(v_ is not None and v_[0] == 'sound' for _, v_ in verdicts_):
+                            mt_ = verdicts_[0][1]
                     inst_ = 'the process-wide memo %s.%s answers what a fresh computation would (%s)' % (mod, name, fn.qn)
                     if mt_ is not None and mt_[0] == 'unsound':
                         ctx.violation('C18.shared', inst_, fn.site(n), 'READ: entries are filed under %s, which leaves out %s: another object (a later session) that differs only there is handed '
@@ -757,7 +777,23 @@ def _import_time_only(M, fn, inner):
     run while modules are imported and at no other time"""
     while getattr(fn, 'parent', None) is not None:
         fn = fn.parent          # the function a registering decorator returns runs when the decorator is applied
+    # how deep inside the decorator the statement's own function is defined (the model keeps nested functions flat under their outermost function)
+    def _depth(node, target, d):
+        for ch in ast.iter_child_nodes(node):
+            if ch is target:
+                return d
+            r_ = _depth(ch, target, d + (1 if isinstance(ch, (ast.FunctionDef, ast.Lambda)) else 0))
+            if r_ is not None:
+                return r_
+        return None
+    depth_ = 0 if inner is fn or inner.node is fn.node else ((_depth(fn.node, inner.node, 0) or 0) + 1)
     if fn.cls is not None:
+        return False
+    # what runs at import: the decorator itself (@fn) and, for a factory (@fn(args)), the function it returns.  A function nested deeper - the wrapper that REPLACES the
+    # decorated function - runs whenever that function is called
+    as_factory = any(isinstance(d_, ast.Call) and isinstance(d_.func, ast.Name) and d_.func.id == fn.name
+                     for o_ in list(M.all_funcs()) + list(M.classes.values()) for d_ in getattr(o_.node, 'decorator_list', []))
+    if depth_ > (1 if as_factory else 0):
         return False
     used_as_deco = False
     for g in list(M.all_funcs()):
@@ -1308,12 +1344,21 @@ def closure_memos(ctx):
                         continue
                     n += 1
                     T_ = stores[0].value.id
-                    key_names = {x.id for x in ast.walk(stores[0].slice) if isinstance(x, ast.Name)}
+                    def names_(e_):
+                        # names an expression reads, not counting what only goes into type(...) / .__class__ (the class of an object says nothing of its content)
+                        skip_ = set()
+                        for x in ast.walk(e_):
+                            if isinstance(x, ast.Call) and isinstance(x.func, ast.Name) and x.func.id == 'type' and len(x.args) == 1:
+                                skip_ |= {id(y) for y in ast.walk(x.args[0])}
+                            if isinstance(x, ast.Attribute) and x.attr == '__class__':
+                                skip_ |= {id(y) for y in ast.walk(x.value)}
+                        return {x.id for x in ast.walk(e_) if isinstance(x, ast.Name) and id(x) not in skip_}
+                    key_names = names_(stores[0].slice)
                     for _ in range(3):
                         # (a key prepared in locals first: key = (type(self), rates, ...))
                         for s in ast.walk(W):
                             if isinstance(s, ast.Assign) and len(s.targets) == 1 and isinstance(s.targets[0], ast.Name) and s.targets[0].id in key_names:
-                                key_names |= {x.id for x in ast.walk(s.value) if isinstance(x, ast.Name)}
+                                key_names |= names_(s.value)
                     self_name = W.args.args[0].arg if W.args.args else None
                     reads_self = f.cls is not None and not f.is_static and any(isinstance(x, ast.Attribute) and isinstance(x.value, ast.Name) and x.value.id == 'self'
                                                                                for x in ast.walk(f.node))
